@@ -1,7 +1,7 @@
 """Property -> machinery table.  Each entry lists the Verus units (E1), MAST-lemma units (E2) and
 Kani harnesses (E3) that decide the property, plus the explicit not-decided list."""
 
-UNIT_RLIMIT = {}
+UNIT_RLIMIT = {'executor': 150}
 
 T_FELT = 'T1 field model prelude/felt.rs: assumed contracts on winter-math BaseElement (new/as_int/add/sub/mul/neg/inv/eq/from) — external crate'
 T_TOOLS = 'T10 Verus 0.2026.09.13, Z3, rustc; machine integers are checked (not mathematical)'
@@ -9,6 +9,15 @@ T_TOOLS = 'T10 Verus 0.2026.09.13, Z3, rustc; machine integers are checked (not 
 T_RPO = 'T4 RPO hash (miden-crypto hash_elements / merge_in_domain) uninterpreted; collision resistance NOT assumed'
 
 PROPS = {
+    'C13': {
+        'level': 'proof',
+        'units': ['executor', 'span_batch'],
+        'kani': [],
+        'trusted_base': [T_FELT, T_TOOLS, 'A-decoder: Decoder method contracts (one row per call carrying the named opcode; block-stack push/pop) assumed in unit executor', 'hub rules (control_sem.rs, span_sem.rs) define the documented stream/semantics'],
+        'not_decided': ['decoder trace column contents (append_* row writers) beyond the assumed one-row-per-call contract', 'final decoder row carries the program hash (Decoder::program_hash)', 'call/syscall/dyn blocks: contract assumed in unit executor'],
+        'sample_obligations': ['C13/executor/Process::execute_op_batch#ensures.0 : decoder.ops == old + batch_stream(batch) (NOOP only after a group-ending immediate op and once per missing group up to the next power of two)',
+                               'C13/executor/Process::execute_span_block#ensures.0 : trace == [SPAN] ++ batches joined by RESPAN ++ [END]; block stack restored'],
+    },
     'C06': {
         'level': 'proof',
         'units': ['executor'],
